@@ -239,6 +239,137 @@ Qed.
 
 End PollRelPending.
 
+(* ------------------------------------------------------------------ staged Hoare reasoning for
+   the polls that return Pending.  A restart is requested by send_tx_queue only (every other
+   function keeps v_restart = false), so the stages are
+     A0 : at the start of an iteration (the initial state of the poll, or a restart)
+     A  : from poll_start up to process_all_incoming_messages
+     B  : from there up to send_tx_queue
+     C  : from there to the timer tail. *)
+Section PollStaged.
+Variables A0 A B C : vsock -> Prop.
+
+Definition stU (P : vsock -> Prop) {X} (m : step X) : Prop :=
+  match m with SOk s' _ => P s' | _ => True end.
+(* unless the transport blocked *)
+Definition stC (P : vsock -> Prop) {X} (m : step X) : Prop :=
+  match m with SOk s' _ => v_transport_pending s' = false -> P s' | _ => True end.
+Definition no_restart {X} (s : vsock) (m : step X) : Prop :=
+  v_restart s = false -> stU (fun s' => v_restart s' = false) m.
+
+Lemma stU_stC : forall (P : vsock -> Prop) X (m : step X), stU P m -> stC P m.
+Proof. intros P X m H. destruct m; cbn [stU stC] in *; auto. Qed.
+
+Hypothesis H_start : forall s, A0 s -> A (poll_start s).
+Hypothesis H_syn_ack : forall s, A s -> stC A (maybe_send_syn_ack s).
+Hypothesis H_send_ack : forall s, A s -> stC A (send_ack s).
+Hypothesis H_pim : forall s, A s -> stC B (process_all_incoming_messages cci s).
+Hypothesis H_flush : forall s rx1 fb w, B s ->
+  rx_flush (v_rx s) = (rx1, FlOk fb, w) -> B (add_wakes (set_rx s rx1) (rx_wakes w)).
+Hypothesis H_split : forall s, B s -> stU B (split_tx_queue_into_segments cci s).
+Hypothesis H_stq : forall s, B s -> v_restart s = false ->
+  stU (fun s' => (v_restart s' = true -> A0 s') /\
+                 (v_restart s' = false -> v_transport_pending s' = false -> C s'))
+      (send_tx_queue cci s).
+Hypothesis H_fw1 : forall s, C s -> C (transition_to_fin_wait_1 s).
+Hypothesis H_fin : forall s, C s -> stC C (maybe_send_fin s).
+Hypothesis H_msa : forall s, C s -> stC C (maybe_send_ack s).
+
+Hypothesis N_syn_ack : forall s, no_restart s (maybe_send_syn_ack s).
+Hypothesis N_send_ack : forall s, no_restart s (send_ack s).
+Hypothesis N_pim : forall s, no_restart s (process_all_incoming_messages cci s).
+Hypothesis N_split : forall s, no_restart s (split_tx_queue_into_segments cci s).
+Hypothesis N_fw1 : forall s : vsock, v_restart (transition_to_fin_wait_1 s) = v_restart s.
+Hypothesis N_fin : forall s, no_restart s (maybe_send_fin s).
+Hypothesis N_msa : forall s, no_restart s (maybe_send_ack s).
+
+Definition tail_shape (s' : vsock) : Prop :=
+  v_transport_pending s' = true \/
+  exists sb, C sb /\ v_transport_pending sb = false /\ v_restart sb = false /\
+    state_is_closed (v_state sb) (o_wait_for_last_ack (v_opts sb)) = false /\ s' = poll_tail sb.
+
+Definition brS (r : body_res) : Prop :=
+  match r with
+  | BrReturn s' PollPending => tail_shape s'
+  | BrRestart s' => A0 s'
+  | _ => True
+  end.
+
+(* a stage that cannot request a restart *)
+Lemma pend_S : forall X (P : vsock -> Prop) (m : step X) k s,
+  v_restart s = false -> no_restart s m -> stC P m ->
+  (forall s1 a, P s1 -> v_restart s1 = false -> v_transport_pending s1 = false -> brS (k s1 a)) ->
+  brS (pend m k).
+Proof.
+  intros X P m k s R0 Hn Hm Hk. unfold pend, bail. specialize (Hn R0).
+  destruct m as [s1 a|s1 e|]; try exact I.
+  cbn [stC stU] in *. rewrite Hn.
+  destruct (v_transport_pending s1) eqn:T.
+  - cbn [brS]. left. exact T.
+  - apply Hk; auto.
+Qed.
+
+Theorem poll_body_S : forall s0, A0 s0 -> brS (poll_body cci s0).
+Proof.
+  intros s0 HA. apply H_start in HA. unfold poll_body. fold (poll_start s0).
+  assert (R0 : v_restart (poll_start s0) = false) by reflexivity.
+  generalize dependent (poll_start s0). clear s0. intros s0 HA R0.
+  apply (pend_S _ A _ _ s0 R0); [apply N_syn_ack | apply H_syn_ack; exact HA |]. intros s1 _ HA1 R1 _.
+  apply (pend_S _ A _ _ s1 R1).
+  { destruct (immediate_ack_to_transmit s1); [apply N_send_ack | intros _; exact R1]. }
+  { destruct (immediate_ack_to_transmit s1); [apply H_send_ack; exact HA1 | intros _; exact HA1]. }
+  intros s2 _ HA2 R2 _.
+  apply (pend_S _ B _ _ s2 R2); [apply N_pim | apply H_pim; exact HA2 |]. intros s3 _ HB3 R3 T3.
+  destruct (rx_flush (v_rx s3)) as [[rx1 fr] w] eqn:Efl. destruct fr as [fb|]; [|exact I].
+  pose proof (H_flush s3 rx1 fb w HB3 Efl) as HB4.
+  assert (R4 : v_restart (add_wakes (set_rx s3 rx1) (rx_wakes w)) = false) by exact R3.
+  set (s4 := add_wakes (set_rx s3 rx1) (rx_wakes w)) in *. clearbody s4.
+  destruct (timer_expired _ _); [exact I|].
+  (* split: bail *)
+  unfold bail at 1.
+  pose proof (H_split s4 HB4) as HB5. pose proof (N_split s4 R4) as R5.
+  destruct (split_tx_queue_into_segments cci s4) as [s5 a5|s5 e5|]; try exact I.
+  cbn [stU] in HB5, R5. rewrite R5.
+  (* send_tx_queue: the only stage that may restart *)
+  pose proof (H_stq s5 HB5 R5) as H6.
+  unfold pend at 1, bail at 1.
+  destruct (send_tx_queue cci s5) as [s6 a6|s6 e6|]; try exact I.
+  cbn [stU] in H6. destruct H6 as [H6r H6c].
+  destruct (v_restart s6) eqn:R6; [cbn [brS]; apply H6r; reflexivity|].
+  destruct (v_transport_pending s6) eqn:T6; [cbn [brS]; left; exact T6|].
+  specialize (H6c eq_refl eq_refl).
+  assert (HC7 : C (if should_close_on_own_initiative s6 then transition_to_fin_wait_1 s6 else s6)).
+  { destruct (should_close_on_own_initiative s6); [apply H_fw1|]; exact H6c. }
+  assert (R7 : v_restart (if should_close_on_own_initiative s6 then transition_to_fin_wait_1 s6 else s6) = false).
+  { destruct (should_close_on_own_initiative s6); [rewrite N_fw1|]; exact R6. }
+  set (s7 := if should_close_on_own_initiative s6 then transition_to_fin_wait_1 s6 else s6) in *.
+  clearbody s7.
+  apply (pend_S _ C _ _ s7 R7); [apply N_fin | apply H_fin; exact HC7 |]. intros s8 _ HC8 R8 _.
+  apply (pend_S _ C _ _ s8 R8); [apply N_msa | apply H_msa; exact HC8 |]. intros s9 _ HC9 R9 T9.
+  destruct (state_is_closed _ _) eqn:C9; [exact I|].
+  assert (Hs : forall sx, sx = poll_tail s9 -> tail_shape sx).
+  { intros sx ->. right. exists s9. repeat split; assumption. }
+  unfold poll_tail in Hs.
+  destruct (next_timer_to_poll _) as [sx t]. destruct t; cbn [brS]; apply Hs; reflexivity.
+Qed.
+
+Theorem poll_loop_S : forall fuel s s',
+  A0 s -> poll_loop cci fuel s = (s', PollPending) -> tail_shape s'.
+Proof.
+  induction fuel as [|fuel IH]; intros s s' HA H; cbn [poll_loop] in H; [discriminate|].
+  pose proof (poll_body_S s HA) as F.
+  destruct (poll_body cci s) as [s1 r1|s1|]; cbn [brS] in *.
+  - inversion H; subst. exact F.
+  - eapply IH; [exact F | exact H].
+  - discriminate.
+Qed.
+
+Theorem poll_S : forall s s',
+  A0 (poll_init s) -> poll cci s = (s', PollPending) -> tail_shape s'.
+Proof. intros s s' HA H. rewrite poll_unfold in H. eapply poll_loop_S; [exact HA | exact H]. Qed.
+
+End PollStaged.
+
 (* ------------------------------------------------------------------ traces *)
 Definition vstep_out (s : vsock) (o : vop) : vout := snd (fst (fst (vstep cci s o))).
 
